@@ -666,6 +666,22 @@ def _subscript(I, n: ast.Subscript, st: State):
         yield from subscript(I, o, k, s2)
 
 
+def clamp_index(I, st, x: Any, L: Any) -> Any:
+    """Python's slice/str.find clamping of an index into [0, L]; when the path condition already
+    entails 0 <= x <= L the index is used as is (keeps the string VCs small)."""
+    if isinstance(x, int):
+        if x >= 0:
+            x = z3.IntVal(x)
+        else:
+            return z3.If(L + x < 0, 0, L + x)
+    try:
+        if not I.feasible(st, z3.Not(z3.And(x >= 0, x <= L))):
+            return x
+    except Exception:  # noqa: BLE001
+        pass
+    return z3.If(x < 0, z3.If(L + x < 0, 0, L + x), z3.If(x > L, L, x))
+
+
 def _norm_index(i: Any, length: Any) -> Any:
     if isinstance(i, int) and isinstance(length, int):
         return i + length if i < 0 else i
@@ -692,11 +708,12 @@ def subscript(I, o: Any, k: Any, st: State):
             hi2 = L if hi is None else hi
 
             def clamp(x):
-                if isinstance(x, int):
-                    return z3.If(L + x < 0, 0, L + x) if x < 0 else z3.If(x > L, L, z3.IntVal(x))
-                return z3.If(x < 0, z3.If(L + x < 0, 0, L + x), z3.If(x > L, L, x))
+                return clamp_index(I, st, x, L)
 
             a, b = clamp(lo2) if not (isinstance(lo2, int) and lo2 == 0) else z3.IntVal(0), clamp(hi2) if hi is not None else L
+            if not I.feasible(st, z3.Not(b >= a)):
+                yield st, z3.SubString(s, a, b - a)  # z3: substr with length 0 is ""
+                return
             yield st, z3.If(b > a, z3.SubString(s, a, b - a), z3.StringVal(""))
             return
         if isinstance(o, SList) and (lo is None or isinstance(lo, int)) and (hi is None or isinstance(hi, int)):
